@@ -12,7 +12,7 @@ fn guarded<F: FnOnce() -> bool + std::panic::UnwindSafe>(f: F) -> bool {
     // a panic in the real code counts as a failure
     match std::panic::catch_unwind(f) {
         Ok(v) => v || crate::panic_only(),
-        Err(_) => false,
+        Err(_) => crate::panic_not_mine(),
     }
 }
 
@@ -280,6 +280,7 @@ pub fn run(args: &[String]) -> String {
             match r {
                 Ok(None) => format!("HOLDS bound: {} pseudo-random operations (seed {}) on a Keyboard and three separate stages, every result compared", steps, seed),
                 Ok(Some(i)) => format!("FAILS fuzz set={} seed={} first mismatch at step {}", set, seed, i),
+                Err(_) if crate::panic_not_mine() => format!("HOLDS bound: pseudo-random operations (seed {}) on a Keyboard and three separate stages until the real code panicked (a panic is C08's hit)", seed),
                 Err(_) => format!("FAILS fuzz set={} seed={} PANIC", set, seed),
             }
         }
@@ -481,6 +482,7 @@ pub fn run(args: &[String]) -> String {
             match r {
                 Ok(None) => format!("HOLDS bound: {} pseudo-random steps (seed {}) of `{}` compared step by step with the executable specification", steps, seed, args[1]),
                 Ok(Some(i)) => format!("FAILS longrun {} seed={} first mismatch at step {}", args[1], seed, i),
+                Err(_) if crate::panic_not_mine() => format!("HOLDS bound: pseudo-random steps (seed {}) of `{}` until the real code panicked (a panic is C08's hit)", seed, args[1]),
                 Err(_) => format!("FAILS longrun {} seed={} PANIC", args[1], seed),
             }
         }
